@@ -37,7 +37,8 @@ VOCAB = VOCAB12 + [
     "pos_x", "pos_y", "score", "custom", "time_point", "iou", "IoU", "Sphericity",
     "Surface Area", "areas", "tim", "idd", "parent_idx", "seg_ids", "a", "b",
 ]
-EDGE_VOCAB = ["iou", "IoU", "IOU", "overlap", "iou_1", "score", "weight", "io", "Iou", "u"]
+EDGE_VOCAB = ["iou", "IoU", "IOU", "overlap", "iou_1", "score", "weight", "io", "Iou", "u",
+              "unique", "uniform", "uiu", "union", "ou", "i_o_u"]
 REQUIRED = [["time"], ["time", "id", "parent_id"], ["time", "area"], ["time", "pos"],
             ["time", "id", "parent_id", "seg_id"], ["time", "track_id", "iou"]]
 
@@ -210,6 +211,43 @@ def run_builder_case(rng, acc):
                        "ndim": None}})
 
 
+def run_csv_file_case(rng, acc, wd):
+    """A CSV file on disk whose header has blanks after the commas: the columns are what
+    pandas reads from the file, and prepare(Path) must map exactly those."""
+    import pandas as pd
+
+    from funtracks.import_export import CSVTracksBuilder
+
+    contracted()
+    cols = ["t", "y", "x", "id", "parent_id"] + rng.sample(["area", "score", "note", "Volume"],
+                                                            rng.randint(0, 2))
+    sep = rng.choice([",", ", ", ",  "])
+    path = wd / "padded.csv"
+    with open(path, "w") as fh:
+        fh.write(sep.join(cols) + "\n")
+        fh.write(",".join("1" for _ in cols) + "\n")
+        fh.write(",".join("2" for _ in cols) + "\n")
+    real = list(pd.read_csv(path).columns)
+    b = CSVTracksBuilder()
+    try:
+        with warnings.catch_warnings():
+            warnings.simplefilter("ignore")
+            b.prepare(path)
+    except PostBroken:
+        return
+    except Exception:
+        return
+    acc["evaluations"] += 1
+    acc["counters"]["csv-file-cases"] = acc["counters"].get("csv-file-cases", 0) + 1
+    used = Counter(flatten(dict(b.node_name_map)))
+    if used != Counter(real):
+        acc["violations"].append({
+            "clause": "every-column-once", "key": "C17/csv-file/columns",
+            "what": f"file header {sep.join(cols)!r}: columns read by pandas {real}; map "
+                    f"{dict(b.node_name_map)}",
+            "replay": {"kind": "csv-file", "cols": cols, "required": [], "ndim": None}})
+
+
 def run_geff_builder_case(rng, acc, wd):
     """A GEFF store whose edges carry properties, some spelled like node properties or like
     display names: GeffTracksBuilder.prepare() must use every node property and every edge
@@ -310,6 +348,8 @@ def run_shard(spec):
                 run_builder_case(rng, acc)
             if i % 40 == 10:
                 run_geff_builder_case(rng, acc, wd)
+            if i % 60 == 30:
+                run_csv_file_case(rng, acc, wd)
             if rng.random() < 0.8:
                 k = rng.randint(0, 12)
                 cols = rng.sample(VOCAB, k)
@@ -345,7 +385,7 @@ def run_shard(spec):
 def floors(tier):
     return {"exhaustive-lists": 13000 if tier == "quick" else 100000,
             "random-node-lists": 10000, "random-edge-lists": 2000,
-            "contract-evaluations": 20000, "builder-reuse-cases": 500, "geff-builder-cases": 200}
+            "contract-evaluations": 20000, "builder-reuse-cases": 500, "geff-builder-cases": 200, "csv-file-cases": 100}
 
 
 def replay(doc):
